@@ -349,6 +349,10 @@ def _vec_agree(py, line, scale):
     if kind == "val" and not math.isfinite(val):
         kind = "nan"
     if py[0] != kind:
+        # a square root whose radicand is zero up to rounding (one value, or all values equal, with a negative denominator): NaN on one side, ~0 on the
+        # other -- the sign of a rounding residue, not a disagreement about the function
+        if {py[0], kind} == {"nan", "val"} and abs(py[1] if py[0] == "val" else val) <= 1e-6 * scale:
+            return True
         return False
     return kind != "val" or abs(py[1] - val) <= 1e-9 * max(abs(py[1]), abs(val)) + 1e-12 * scale
 
